@@ -111,9 +111,10 @@ func c07History(c *Ctx, idx int, hosts, conns, nClients, steps int, restarts boo
 	var bg sync.WaitGroup
 	if restarts {
 		bg.Add(1)
+		restartSeed := rng.Int63()
 		go func() {
 			defer bg.Done()
-			lr := rand.New(rand.NewSource(rng.Int63()))
+			lr := rand.New(rand.NewSource(restartSeed))
 			for {
 				select {
 				case <-stop:
